@@ -6,6 +6,7 @@ import (
 	"encoding/json"
 	"fmt"
 	"hash/fnv"
+	"reflect"
 	"strings"
 	"testing"
 
@@ -316,7 +317,7 @@ func (cacheEngine) Exec(t *testing.T, cc any) *simrt.Result {
 		evs := c.build()
 		st := &sim.Res.Stats
 		h := mocrelay.NewCacheHandler(c.Cap)
-		cache := h.VerifCache()
+		cache := cacheOf(h)
 		all := []*mocrelay.ReqFilter{{}}
 		report := func(fs []cacheFinding, ctx string) {
 			for _, f := range fs {
@@ -446,7 +447,7 @@ func (cacheEngine) Exec(t *testing.T, cc any) *simrt.Result {
 					sim.Violate("C16", "restore-error", nil, "Restore: %v", err)
 					continue
 				}
-				c2 := h2.VerifCache()
+				c2 := cacheOf(h2)
 				probes := append([][]simrt.FilterSpec{{{}}}, op.Queries...)
 				for _, fs := range probes {
 					a1 := cache.Find(simrt.Filters(fs))
@@ -479,6 +480,16 @@ func (cacheEngine) Exec(t *testing.T, cc any) *simrt.Result {
 		st.NonTrivial = nAdded >= 2 && (nEvict > 0 || nRepl > 0 || nDel > 0)
 		st.Completed = true
 	})
+}
+
+// cacheOf finds the EventCache behind a CacheHandler by reflection, so that the
+// checks do not depend on the handler's unexported field names.
+func cacheOf(h mocrelay.CacheHandler) *mocrelay.EventCache {
+	v := simrt.FindPointer(h, reflect.TypeOf((*mocrelay.EventCache)(nil)))
+	if !v.IsValid() {
+		panic("verif: no *EventCache reachable from CacheHandler")
+	}
+	return v.Interface().(*mocrelay.EventCache)
 }
 
 func cacheAddrs(R []*mocrelay.Event) map[string]bool {
